@@ -27,6 +27,8 @@ C15 run <checkHeader> <unauthAct> <noMatchAct> <errAct> <conn> <user> <mailFrom>
 ```
 `C15 merge <verdict>*`: the verdicts (q quarantine, r reject, i a reason without action, - nothing) the checks of one
 check group returned at one stage, in the order their goroutines finished (`mergeResults`) → `refused` / `passed` (does the command fail?).
+`C15 placed <g|s|d> <R|L>+ <verdict>`: the check group declared globally / in the source block / in a destination block, the recipients
+named in order (R of that block, L another), authorize_sender's verdict on the sender → per recipient `a` accepted / `x` refused (`placedRcpts`).
 `C15 sasl <ok> <normalised login name> <authzid> <authcid> <account whose password is sent>`: one AUTH PLAIN exchange
 (`saslPlain`; a password is the name of its account) → `auth-ok <AuthUser>` / `auth-failed`.
 The action arguments go through `parseActionDirective`; a written directive that does not parse makes `Init` fail:
@@ -355,6 +357,18 @@ def handle (toks : List String) : String :=
     match vs.mapM verdict? with
     | some l => if (mergeResults l).1 then "refused" else "passed"
     | none => "bad-op"
+  | [["placed", place, order, v]] =>
+    -- one message: the check group declared at `place` (g s d), recipients in order (R: of the block that declares
+    -- the group, L: another), `v` = authorize_sender's verdict on the sender → per recipient a accepted / x refused
+    let place? : Option Place := match place with
+      | "g" => some .global | "s" => some .source | "d" => some .dest | _ => none
+    let verdict? : Option Verdict := match v with
+      | "q" => some .quarantine | "r" => some .reject | "i" => some .none | "-" => some .none | _ => none
+    match place?, verdict?, order.toList.all (fun ch => ch == 'R' || ch == 'L') with
+    | some p, some vd, true =>
+      let acc := placedRcpts p (mergeResults [Verdict.none, vd]).1 (order.toList.map (· == 'R'))
+      String.ofList (acc.map fun a => if a then 'a' else 'x')
+    | _, _, _ => "bad-op"
   | [["sasl", ok, nf, authzid, authcid, pwOwner]] =>
     -- one AUTH PLAIN exchange: `ok nf` = the normaliser's answer for the login name (ok = 0: refused);
     -- the client sends the password of the account `pwOwner`; a password is the name of its account
